@@ -65,7 +65,7 @@ class World:
     PROBES_EXPECTED = [
         "ctor-normalised-as-is", "ctor-rescaled", "ctor-unnormalised-kept", "ctor-reject", "marginal", "marginal-reordered",
         "marginal-of-marginal", "marginal-source-reused", "marginal-multidigit", "mmd", "mmd-multi-sigma", "nll", "js",
-        "distance-self", "distance-via-evaluate", "mmd-numpy-sigma", "save-load-ok", "list-save", "torn-file-load", "overwrite", "zero-weight",
+        "distance-self", "distance-via-evaluate", "mmd-numpy-sigma", "wide-support", "wide-support>1024", "save-load-ok", "list-save", "torn-file-load", "overwrite", "zero-weight",
     ]
 
     # ------------------------------------------------------------ generation
@@ -157,6 +157,15 @@ class World:
                 if f:
                     s["fault"] = f
             steps.append(s)
+        if r.random() < 0.03:
+            # supports of hundreds to thousands of outcomes on 10-12 qubits (compactly described: rebuilt from a seed
+            # when the step runs), at a random position of the history
+            for _ in range(r.randint(1, 2)):
+                w = {"op": "wide", "args": {"n": r.choice([10, 11, 12]), "ka": r.randint(200, 1800), "kb": r.randint(200, 1800),
+                                            "heavy": r.randint(0, 6), "seed": r.getrandbits(32), "style": r.choice(["tuple", "bits"]),
+                                            "sigma": r.choice([1.0, 0.5, 3.0, 50.0, 1e4, [0.25, 10, 1000], {"np": [0.5, 2.0, 30.0]}]),
+                                            "k": r.randint(1, 4)}}
+                steps.insert(r.randint(0, len(steps)), w)
         for s in steps:
             s["client"] = r.randrange(cfg["clients"])
             s["rs"] = r.getrandbits(32)
@@ -353,6 +362,98 @@ class World:
                     ctx.fail("refine", f"marginal-values{tag}", f"marginal on {qs}: p{pk} = {got[pk]!r}, expected {v!r}")
         self._add(st, res, "marginal")
         ctx.log("marginal", "ok", qs=qs, src=idx)
+
+    # -- wide supports
+    def _do_wide(self, ctx, st, step, a):
+        """Two distributions with supports of hundreds to thousands of outcomes: a cluster of a few heavy, neighbouring
+        outcomes shared out between the two, and a long tail of light ones.  Laws of the distances, and one marginal
+        against the reference.  The objects are dropped afterwards (the pool's snapshots stay small)."""
+        import numpy as np
+
+        D = st["D"]
+        r = random.Random(a["seed"])
+        n = a["n"]
+        space = 2 ** n
+
+        def bits(i):
+            return tuple((i >> (n - 1 - q)) & 1 for q in range(n))
+
+        c = r.randrange(4, space - 4)
+        heavy = r.sample(range(c - 3, c + 4), a["heavy"])
+        wa, wb = {}, {}
+        for i in heavy:
+            (wa if r.random() < 0.5 else wb)[i] = r.choice([0.3, 0.5, 1.0, 2.0]) * 400
+        for w, k in ((wa, a["ka"]), (wb, a["kb"])):
+            for i in r.sample(range(space), min(k, space)):
+                w.setdefault(i, r.random())
+        objs = []
+        for w in (wa, wb):
+            tot = sum(w.values())
+            inp = {key_of(bits(i), a["style"]): v / tot for i, v in w.items()}
+            ok, obj = call(D.MeasurementOutcomeDistribution, inp)
+            ctx.called("MeasurementOutcomeDistribution")
+            if not ok:
+                ctx.fail("unexpected-reject", f"ctor-wide:{type(obj).__name__}", f"constructor rejected a normalised input with {len(inp)} outcomes on {n} qubits: {obj}")
+            objs.append((obj, {bits(i): v / tot for i, v in w.items()}))
+        ctx.probe("wide-support")
+        if len(set(wa) | set(wb)) > 1024:
+            ctx.probe("wide-support>1024")
+        (oa, ma), (ob, mb) = objs
+        sig = a["sigma"]
+        if isinstance(sig, dict):
+            sig = np.array(sig["np"], dtype=float)
+        what = f"wide distributions (n={n}, ka={a['ka']}, kb={a['kb']}, heavy={a['heavy']}, seed={a['seed']}, sigma={a['sigma']})"
+        ok1, v_ab = call(D.compute_mmd, oa, ob, {"sigma": sig})
+        ok2, v_ba = call(D.compute_mmd, ob, oa, {"sigma": sig})
+        ok3, v_aa = call(D.compute_mmd, oa, oa, {"sigma": sig})
+        ctx.called("compute_mmd")
+        for ok, v in ((ok1, v_ab), (ok2, v_ba), (ok3, v_aa)):
+            if not ok:
+                ctx.fail("unexpected-reject", f"mmd:{type(v).__name__}", f"compute_mmd raised {type(v).__name__}: {v} on {what}")
+        with judge(ctx, "malformed-result"):
+            v_ab, v_ba, v_aa = float(v_ab), float(v_ba), float(v_aa)
+            if not abs(v_ab - v_ba) <= 1e-10 * max(1.0, abs(v_ab)):
+                ctx.fail("law", "mmd-symmetry", f"MMD(a,b) = {v_ab!r} but MMD(b,a) = {v_ba!r} for {what}")
+            if not v_ab >= -1e-10:
+                ctx.fail("law", "mmd-nonnegative", f"MMD = {v_ab!r} for {what}")
+            if not abs(v_aa) <= 1e-10:
+                ctx.fail("law", "mmd-self-zero", f"MMD(a,a) = {v_aa!r} for {what}")
+        ok4, nll = call(D.compute_clipped_negative_log_likelihood, oa, ob, {})
+        ok5, js_ab = call(D.compute_jensen_shannon_divergence, oa, ob, {})
+        ok6, js_ba = call(D.compute_jensen_shannon_divergence, ob, oa, {})
+        ctx.called("compute_clipped_negative_log_likelihood")
+        for ok, v, nm in ((ok4, nll, "nll"), (ok5, js_ab, "js"), (ok6, js_ba, "js")):
+            if not ok:
+                ctx.fail("unexpected-reject", f"{nm}:{type(v).__name__}", f"{nm} raised {type(v).__name__}: {v} on {what}")
+        with judge(ctx, "malformed-result"):
+            h = -sum(p * math.log(p) for p in ma.values() if p > 0)
+            ksize = len(set(ma) | set(mb))
+            if not float(nll) >= h - ksize * 1e-9 - 1e-9:
+                ctx.fail("law", "nll-entropy-bound", f"NLL(t|m) = {float(nll)!r} < H(t) = {h!r} for {what}")
+            if not abs(float(js_ab) - float(js_ba)) <= 1e-10 * max(1.0, abs(float(js_ab))):
+                ctx.fail("law", "js-symmetry", f"JS(a,b) = {float(js_ab)!r} but JS(b,a) = {float(js_ba)!r} for {what}")
+        # one marginal of the wide distribution against the reference
+        qs = r.sample(range(n), min(a["k"], n))
+        okm, res = call(oa.subdistribution, list(qs))
+        ctx.called("subdistribution")
+        if not okm:
+            ctx.fail("unexpected-reject", f"marginal:{type(res).__name__}", f"subdistribution({qs}) raised {type(res).__name__}: {res} on {what}")
+        want = {}
+        for key, v in ma.items():
+            pk = tuple(key[q] for q in qs)
+            want[pk] = want.get(pk, 0.0) + v
+        with judge(ctx, "malformed-object"):
+            got = res.distribution_dict
+            if set(got.keys()) != set(want.keys()):
+                ctx.fail("refine", "marginal-keys", f"marginal on {qs} of {what}: keys {sorted(want)} expected, got {sorted(got.keys())}")
+            for pk, v in want.items():
+                if not abs(got[pk] - v) <= 1e-9 * max(1.0, v):
+                    ctx.fail("refine", "marginal-values", f"marginal on {qs} of {what}: p{pk} = {got[pk]!r}, expected {v!r}")
+            now = {tuple(k): float(v) for k, v in oa.distribution_dict.items()}
+            if now != ma and any(abs(now.get(k, -1) - v) > 1e-12 for k, v in ma.items()) or len(now) != len(ma):
+                ctx.fail("mutated-source", "wide", f"the wide source distribution changed during marginal / distance calls ({what})")
+        ctx.nontrivial = True
+        ctx.log("wide", "ok", n=n, sup=len(set(ma) | set(mb)), v=v_ab)
 
     # -- distances
     def _do_distance(self, ctx, st, step, a):
